@@ -2,111 +2,10 @@
 
 package sched
 
-import (
-	"regexp"
-	"runtime"
-	"strconv"
-	"strings"
-)
+import "vg/mon"
 
-// G is one goroutine of a runtime.Stack(all) dump.
-type G struct {
-	ID     int      `json:"id"`
-	State  string   `json:"state"`
-	Frames []string `json:"frames"` // function names, innermost first
-}
+type G = mon.G
 
-func dumpAll() string {
-	buf := make([]byte, 1<<20)
-	for {
-		n := runtime.Stack(buf, true)
-		if n < len(buf) {
-			return string(buf[:n])
-		}
-		buf = make([]byte, 2*len(buf))
-	}
-}
-
-var hdrRe = regexp.MustCompile(`^goroutine (\d+) \[([^\],]+)(?:, [^\]]*)?\]:$`)
-
-func parseDump(s string) []G {
-	var out []G
-	var cur *G
-	for _, line := range strings.Split(s, "\n") {
-		if m := hdrRe.FindStringSubmatch(line); m != nil {
-			id, _ := strconv.Atoi(m[1])
-			out = append(out, G{ID: id, State: m[2]})
-			cur = &out[len(out)-1]
-			continue
-		}
-		if cur == nil || line == "" || strings.HasPrefix(line, "\t") {
-			continue
-		}
-		fn := line
-		if strings.HasPrefix(fn, "created by ") {
-			fn = strings.TrimPrefix(fn, "created by ")
-			if i := strings.Index(fn, " in goroutine"); i >= 0 {
-				fn = fn[:i]
-			}
-			cur.Frames = append(cur.Frames, "created by "+fn)
-			continue
-		}
-		if i := strings.LastIndex(fn, "("); i > 0 {
-			fn = fn[:i]
-		}
-		cur.Frames = append(cur.Frames, fn)
-	}
-	return out
-}
-
-func (g G) has(sub string) bool {
-	for _, f := range g.Frames {
-		if strings.Contains(f, sub) {
-			return true
-		}
-	}
-	return false
-}
-
-// inScheduler: the goroutine was started by, or is executing, scheduler code
-// (loop, worker, spawner) - not a caller that merely calls Enqueue/Wait.
-func (g G) inScheduler() bool {
-	for _, f := range g.Frames {
-		if strings.HasPrefix(f, "created by go.uber.org/cff/scheduler.") {
-			return true
-		}
-	}
-	return false
-}
-
-func (g G) blocked() bool {
-	switch {
-	case strings.HasPrefix(g.State, "chan send"), strings.HasPrefix(g.State, "chan receive"),
-		strings.HasPrefix(g.State, "select"), strings.HasPrefix(g.State, "semacquire"),
-		strings.HasPrefix(g.State, "sync."):
-		return true
-	}
-	return false
-}
-
-func (g G) key() string { return strconv.Itoa(g.ID) + "|" + g.State + "|" + strings.Join(g.Frames, ";") }
-
-// sameBlocked: both sets hold the same goroutines, all blocked, same frames.
-func sameBlocked(a, b []G) bool {
-	if len(a) != len(b) {
-		return false
-	}
-	m := map[string]bool{}
-	for _, g := range a {
-		if !g.blocked() {
-			return false
-		}
-		m[g.key()] = true
-	}
-	for _, g := range b {
-		if !m[g.key()] {
-			return false
-		}
-	}
-	return true
-}
+func dumpAll() string         { return mon.DumpAll() }
+func parseDump(s string) []G  { return mon.ParseDump(s) }
+func sameBlocked(a, b []G) bool { return mon.SameBlocked(a, b) }
